@@ -691,6 +691,13 @@ func (se *SpecEnv) call(x *ast.CallExpr) (Val, error) {
 			return Val{T: sel(fc.compAt(se.st, "CN.cap", arraySort("Int")), p.T), S: SInt, Typ: tInt}, nil
 		}
 		return Val{T: sel(fc.compAt(se.st, "CN.closed", arraySort("Bool")), p.T), S: SBool, Typ: tBool}, nil
+	case "consumed", "count", "teesrc", "teedst":
+		p, err := se.expr(x.Args[0])
+		if err != nil {
+			return Val{}, err
+		}
+		comp := map[string]string{"consumed": ghConsumed, "count": ghCount, "teesrc": ghTeeSrc, "teedst": ghTeeDst}[name]
+		return Val{T: sel(fc.compAt(se.st, comp, arraySort("Int")), p.T), S: SInt, Typ: tInt}, nil
 	case "chanlog":
 		if err := argc(2); err != nil {
 			return Val{}, err
